@@ -103,6 +103,9 @@ def check(ctx: Ctx) -> None:
     check_input_immutability(ctx, 'C13.h', public_api(ctx.model, [PL, AG]), floor=20)
     from ..units import check_units
     check_units(ctx, 'C13.i', [PL, AG], floor=20)
+    from ..idioms import check_no_stale_masks, check_options_forwarded
+    check_no_stale_masks(ctx, 'C13.j', [PL, AG], floor=30)
+    check_options_forwarded(ctx, 'C13.k', [PL, AG], floor=10)
     _check_policy(ctx)
     _check_units(ctx)
     _check_inverse(ctx)
